@@ -30,13 +30,16 @@ import (
 )
 
 type FSCase struct {
-	Targets  [3][]string `json:"targets"`  // per font (A, B, C): texts of codes 0x41, 0x42, ...
-	Clash    bool        `json:"clash"`    // forms name their font /F1 like the page (else /G1, /H1)
-	OwnRes   bool        `json:"own_res"`  // outer form has its own /Resources (else it uses the page's and font A)
-	Nested   bool        `json:"nested"`   // outer form paints an inner form with font C
-	Twice    bool        `json:"twice"`    // the page paints the outer form twice
-	Shows    [][]int     `json:"shows"`    // code strings; the k-th show of the whole document uses Shows[k % len]
-	Indirect bool        `json:"indirect"` // the page's /Resources and /Font dictionaries are indirect objects
+	Targets [3][]string `json:"targets"` // per font (A, B, C): texts of codes 0x41, 0x42, ...
+	Clash   bool        `json:"clash"`   // forms name their font /F1 like the page (else /G1, /H1)
+	OwnRes  bool        `json:"own_res"` // outer form has its own /Resources (else it uses the page's and font A)
+	Nested  bool        `json:"nested"`  // outer form paints an inner form with font C
+	Twice   bool        `json:"twice"`   // the page paints the outer form twice
+	Shows   [][]int     `json:"shows"`   // code strings; the k-th show of the whole document uses Shows[k % len]
+	// QSave: the page ends with q ... /F2 Tf ... Q followed by a string shown without a new Tf: the font is part of
+	// the graphics state (ISO 32000-1 8.4.1, 9.3.1), so Q brings back /F1
+	QSave    bool `json:"q_save,omitempty"`
+	Indirect bool `json:"indirect"` // the page's /Resources and /Font dictionaries are indirect objects
 }
 
 func init() { vr.Register("formscope", checkFormScope) }
@@ -87,6 +90,9 @@ func (c FSCase) build() ([]byte, []string) {
 	if c.Twice {
 		pageOps = append(pageOps, op{do: 1}, show(0, "F1"))
 	}
+	if c.QSave {
+		pageOps = append(pageOps, op{do: 3, codes: c.Shows[0], y: 100}, op{do: 4, codes: c.Shows[len(c.Shows)-1], y: 76})
+	}
 	outerOps := []op{show(fontB, nameB)}
 	if c.Nested {
 		outerOps = append(outerOps, op{do: 2}, show(fontB, nameB))
@@ -100,6 +106,10 @@ func (c FSCase) build() ([]byte, []string) {
 				sb.WriteString("/X0 Do\n")
 			case 2:
 				sb.WriteString("/X1 Do\n")
+			case 3: // another font inside q ... Q
+				fmt.Fprintf(&sb, "q BT /F2 11 Tf 72 %d Td %s Tj ET Q\n", o.y, hexOf(o.codes))
+			case 4: // no Tf: the font selected before the q is current again
+				fmt.Fprintf(&sb, "BT 72 %d Td %s Tj ET\n", o.y, hexOf(o.codes))
 			default:
 				fmt.Fprintf(&sb, "BT /%s 11 Tf 72 %d Td %s Tj ET\n", o.res, o.y, hexOf(o.codes))
 			}
@@ -115,6 +125,10 @@ func (c FSCase) build() ([]byte, []string) {
 				paint(outerOps)
 			case 2:
 				paint(innerOps)
+			case 3:
+				want = append(want, c.text(2, o.codes))
+			case 4:
+				want = append(want, c.text(0, o.codes))
 			default:
 				want = append(want, c.text(o.font, o.codes))
 			}
@@ -145,9 +159,9 @@ func (c FSCase) build() ([]byte, []string) {
 		14: cm(0), 15: cm(1), 16: cm(2),
 		7: rawpdf.Stream("", page.String()),
 	}
-	res := "<< /Font << /F1 4 0 R >> /XObject << /X0 8 0 R >> >>"
+	res := "<< /Font << /F1 4 0 R /F2 6 0 R >> /XObject << /X0 8 0 R >> >>"
 	if c.Indirect {
-		o[20] = "<< /F1 4 0 R >>"
+		o[20] = "<< /F1 4 0 R /F2 6 0 R >>"
 		o[21] = "<< /Font 20 0 R /XObject << /X0 8 0 R >> >>"
 		res = "21 0 R"
 	}
@@ -231,6 +245,7 @@ func genFormScope(t *rapid.T) FSCase {
 	c.Nested = c.OwnRes && rapid.Bool().Draw(t, "nested")
 	c.Twice = rapid.Bool().Draw(t, "twice")
 	c.Indirect = rapid.Bool().Draw(t, "indirect")
+	c.QSave = rapid.Bool().Draw(t, "qSave")
 	ns := rapid.IntRange(3, 7).Draw(t, "shows")
 	for i := 0; i < ns; i++ {
 		var codes []int
@@ -256,6 +271,9 @@ func metaFormScope(c FSCase) vr.Meta {
 	}
 	if c.Twice {
 		l = append(l, "formscope:painted-twice")
+	}
+	if c.QSave {
+		l = append(l, "formscope:font-restored-by-Q")
 	}
 	return vr.Meta{FP: fmt.Sprintf("%+v", c), NonTrivial: c.Clash && c.OwnRes, Labels: l}
 }
